@@ -1,11 +1,12 @@
 ----------------------------- MODULE MCGFormat -----------------------------
 (* M part of C16: internal consistency of ScpiGFormat on ALL decimal         *)
-(* expansions with at most MaxLen digits (first digit non-zero, trailing     *)
-(* zeros included), exponents Exps, precisions Precs, both signs    *)
-(* (negative values up to NegLen digits) and zero.  The expansions are grown digit by digit so that TLC's workers  *)
+(* expansions with at most MaxLen digits (MaxLenHigh digits for precisions   *)
+(* above PSplit; first digit non-zero, trailing zeros included), exponents   *)
+(* Exps, precisions Precs, both signs (negative values up to NegLen digits)  *)
+(* and zero.  The expansions are grown digit by digit so that TLC's workers  *)
 (* share the enumeration; every state is one (value, precision) pair.        *)
 EXTENDS Integers, Sequences, FiniteSets, TLC
-CONSTANTS MaxLen, NegLen, Exps, Precs
+CONSTANTS MaxLen, NegLen, PSplit, MaxLenHigh, Exps, Precs
 VARIABLES d, e, P, neg
 G == INSTANCE ScpiGFormat
 ExpsFull == (0 - 8)..8
@@ -19,7 +20,7 @@ Init == /\ d \in {<<k>> : k \in 0..9}
         /\ e \in (IF d = <<0>> THEN {0} ELSE Exps)
         /\ P \in Precs
         /\ neg \in {0, 1}
-Next == /\ d # <<0>> /\ Len(d) < (IF neg = 1 THEN NegLen ELSE MaxLen)
+Next == /\ d # <<0>> /\ Len(d) < (IF neg = 1 THEN NegLen ELSE IF P > PSplit THEN MaxLenHigh ELSE MaxLen)
         /\ \E k \in 0..9 : d' = Append(d, k)
         /\ UNCHANGED <<e, P, neg>>
 Spec == Init /\ [][Next]_vars
